@@ -548,11 +548,17 @@ def job_loop(res, pid, K, depth, index):
         ok = v['nbad'] == 0
         res.obs.append(Ob('main loop, all paths of <= %d iterations (partition %d/%d, %d paths, %d applicable): %s' % (K, index, 1 << depth, out['paths'], v['n'], TEXT[k]), 'holds' if ok else 'violated',
                           key='mainloop-' + k, detail='' if ok else str(v['bad'][:1])[:600], cex=None if ok else {'replay': 'mainloop', 'obligation': k, 'violating_paths': v['nbad'], 'example': v['bad'][:1]}))
-    if index == 0:
-        # non-vacuity of the trace obligations of this property: they apply to at least one explored path each (an obligation applicable to no path would be vacuous)
-        appl = {k: v['n'] for k, v in out['agg'].items() if pid in PROP_OF[k]}
-        res.obs.append(Ob('main loop K=%d: every trace obligation of %s applies to explored paths (%s)' % (K, pid, ', '.join('%s: %d' % kv for kv in sorted(appl.items()))), 'witness-ok' if appl and all(n > 0 for n in appl.values()) else 'witness-failed', kind='witness',
-                          detail='' if appl and all(n > 0 for n in appl.values()) else 'an obligation applies to no path'))
+    res.loop_appl = {k: v['n'] for k, v in out['agg'].items() if pid in PROP_OF[k]}      # for the non-vacuity witness over all partitions (loop_witness)
+
+def loop_witness(results, pid):
+    """non-vacuity of the trace obligations of a property over the whole explored path tree: each applies to at least one path"""
+    r = JobResult(); tot = {}
+    for x in results:
+        for k, n in getattr(x, 'loop_appl', {}).items(): tot[k] = tot.get(k, 0) + n
+    ok = bool(tot) and all(n > 0 for n in tot.values())
+    r.obs.append(Ob('main loop: every trace obligation of %s applies to explored paths (%s)' % (pid, ', '.join('%s: %d' % kv for kv in sorted(tot.items()))), 'witness-ok' if ok else 'witness-failed', kind='witness', detail='' if ok else 'an obligation applies to no path'))
+    r.job = 'loop_witness(%s)' % pid; r.wall = 0.0
+    return r
 
 def job_abort_sites(res, pid, K):
     """C14: every place where main reads the interrupt flag.  Outside the loop test and the final message test a read is explored with the flag set:
